@@ -151,12 +151,25 @@ def main(argv):
     plans = []
     for kind in "ehm":
         plans.append((kind, "small-even")); plans.append((kind, "small-odd")); plans.append((kind, "general"))
+    # axisymmetric problems with an external (Kelvin-transformed) region: the material returned at a point of an external block is the
+    # block's material divided by |p - (0, Zo)|^2 / (Ro*Ri) (the same warping the solver assembled with, taken at the query point)
+    plans.append(("e", "general-ext")); plans.append(("h", "general-ext"))
     plans.append(("m", "general-harmonic"))      # complex potentials: the time-harmonic branch of the magnetics post-processor
     if ck.tier == "thorough":
         plans = plans * 3
     try:
         for t, (kind, shape) in enumerate(plans):
             p = gen.gen_rects(kind, rng, units="centimeters") if shape.startswith("general") else None
+            if shape == "general-ext":
+                while len(p.labels) < 2:       # a drawing that lies entirely in the external region is not a meaningful problem (see DESIGN.md 0.8)
+                    p = gen.gen_rects(kind, rng, units="centimeters")
+                p.ptype = "axi"
+                W_ = max(n["x"] for n in p.nodes)
+                p.ext = (rng.choice([1.5, -0.75, 3.0]), rng.choice([2.0 * W_, 20.0]), rng.choice([W_, 8.0]))
+                for lab in p.labels[1:]:
+                    if rng.random() < 0.6 or lab is p.labels[-1]:
+                        lab["ext"] = 1
+                stats["external_region_problems"] = stats.get("external_region_problems", 0) + 1
             if shape == "general-harmonic":
                 p.freq = rng.choice([50.0, 400.0])
                 for m_ in p.blockprops:
@@ -355,10 +368,16 @@ def main(argv):
                         nviol += 1
                         ck.violation("field:%s" % kind, "%s: field at (%.9g, %.9g) is (%.9g, %.9g), minus the gradient of the interpolant is (%.9g, %.9g)"
                                      % (kind, x, y, Ex, Ey, -gx / u, -gy / u), dict(files=run.files(), point=(x, y)))
-                    # the flux density is the field scaled by the block's material (constant materials, outside external regions)
-                    if not mat.get("TK") and not lab.get("ext") and len(got) >= 7:
-                        sx = mat.get("ex" if kind == "e" else "Kx", 1.0) * (8.85418781762e-12 if kind == "e" else 1.0)
-                        sy = mat.get("ey" if kind == "e" else "Ky", 1.0) * (8.85418781762e-12 if kind == "e" else 1.0)
+                    # the flux density is the field scaled by the block's material (constant materials); in an external region the
+                    # material is divided by the Kelvin factor, taken at the element centroid for the flux density and at the query
+                    # point for the material data returned (the queries of these categories ARE centroids)
+                    aecf = 1.0
+                    if lab.get("ext") and p.ptype != "planar" and getattr(p, "ext", None):
+                        aecf = (x * x + (y - p.ext[0]) ** 2) / (p.ext[1] * p.ext[2])
+                        stats["external_points_compared"] = stats.get("external_points_compared", 0) + 1
+                    if not mat.get("TK") and len(got) >= 7:
+                        sx = mat.get("ex" if kind == "e" else "Kx", 1.0) * (8.85418781762e-12 if kind == "e" else 1.0) / aecf
+                        sy = mat.get("ey" if kind == "e" else "Ky", 1.0) * (8.85418781762e-12 if kind == "e" else 1.0) / aecf
                         Dx, Dy = got[1], got[2]
                         stats["material_scaled_compared"] = stats.get("material_scaled_compared", 0) + 1
                         ds_ = max(math.hypot(sx * Ex, sy * Ey), 1e-300)
@@ -370,7 +389,7 @@ def main(argv):
                             ck.violation("scaled-field:%s" % kind, "%s: at (%.9g, %.9g) the flux density is (%.12g, %.12g), the field (%.12g, %.12g) scaled by the block's material gives (%.12g, %.12g)%s"
                                          % (kind, x, y, Dx, Dy, Ex, Ey, sx * Ex, sy * Ey, "" if kind == "h" else "; energy density %.12g vs D.E/2 = %.12g" % (got[7], 0.5 * (Dx * Ex + Dy * Ey))),
                                          dict(files=run.files(), point=(x, y)))
-                    kx = mat.get("ex" if kind == "e" else "Kx", 1.0); ky = mat.get("ey" if kind == "e" else "Ky", 1.0)
+                    kx = mat.get("ex" if kind == "e" else "Kx", 1.0) / aecf; ky = mat.get("ey" if kind == "e" else "Ky", 1.0) / aecf
                     if (abs(got[5] - kx) > 1e-12 * kx or abs(got[6] - ky) > 1e-12 * ky) and nviol < 3:
                         nviol += 1
                         ck.violation("material:%s" % kind, "%s: material data at (%.9g, %.9g) are (%g, %g), the block containing the point has (%g, %g)"
@@ -379,7 +398,9 @@ def main(argv):
                 rep, _, _ = vlib.run_lines([mx, "locate"], model_lines)
                 for r, (val, vs, pt) in zip(rep, model_expect):
                     stats["model_compared"] += 1
-                    if not r.startswith("x") or abs(tok2d(r) - val) > 1e-12 * vs:
+                    # two double evaluations (different operation order) of the interpolant, each within 1e-12 of the exact one on
+                    # the meshes generated here (the implementation's own distance to the exact value is checked above)
+                    if not r.startswith("x") or abs(tok2d(r) - val) > 2e-12 * vs:
                         ck.obligation_broken("correspondence locate/interp: value returned by the post-processor vs Model/Locate.lean interp",
                                              dict(point=pt, impl=val, model=tok2d(r) if r.startswith("x") else r))
                         break
